@@ -1,3 +1,5 @@
 pub mod c02;
 pub mod c05;
 pub mod c03;
+pub mod c09;
+pub mod c11;
